@@ -91,9 +91,10 @@ def gen_fa(V, how, cls, pre):
 
 @unit('C06', 'array-level-fa-spectrum', functions=[FR + 'generate_fa_spectrum', FR + 'calc_fa_spectrum'],
       cases=[dict(fn='generate_fa_spectrum', how='padded'), dict(fn='generate_fa_spectrum', how='unpadded'),
-             dict(fn='calc_fa_spectrum', how='unpadded'), dict(fn='calc_fa_spectrum', how='p2_plus'), dict(fn='calc_fa_spectrum', how='n')],
+             dict(fn='calc_fa_spectrum', how='unpadded'), dict(fn='calc_fa_spectrum', how='n')] +
+            [dict(fn='calc_fa_spectrum', how='p2_plus', p=k) for k in (0, 1, 2, 3)],       # every value of the property's domain, 0 included (falsy)
       modes=('unbounded',), budget_ms=20000)
-def array_level(V, fn, how):
+def array_level(V, fn, how, p=None):
     st = {}
 
     def setup():
@@ -112,8 +113,6 @@ def array_level(V, fn, how):
             st['N'] = n
             return dict(sig=sig, n_pad=False) if fn == 'generate_fa_spectrum' else dict(sig=sig)
         if how == 'p2_plus':
-            p = V.int('p2_plus')
-            V.assume(p >= 0, p <= 3)
             st['N'] = T.pow2(T.sadd(base, p))
             return dict(sig=sig, p2_plus=p)
         N = V.int('N')
@@ -121,6 +120,7 @@ def array_level(V, fn, how):
         st['N'] = N
         return dict(sig=sig, n=N)
     for out in V.run(FR + fn, setup):
+        out.replay_info = dict(module='fourier', op='array', fn=fn, how=how, p=p)
         if not out.no_raise():
             continue
         ok = isinstance(out.result, tuple) and len(out.result) == 2
